@@ -23,6 +23,7 @@
 import TypedpyModel.Lemmas.Alias
 import TypedpyModel.Spec.AliasScope
 import TypedpyModel.Generated.Aliasing
+import TypedpyModel.Generated.AliasApi
 import TypedpyModel.Pinned.Aliasing
 namespace Typedpy.C19
 open Typedpy.Alias
@@ -526,6 +527,27 @@ theorem C19_example :
      | (h', some res) => sameBelow 7 exampleHeap h' && (reachList 6 h' res).all (fun a => decide (7 ≤ a))
                           && (reachList 6 h' res).length == 7
      | _ => false) = true := by
+  decide +kernel
+
+/-! ## part 8 — every public entry point is accounted for -/
+
+/-- obligation re-checked against the public API introspected from /repo on every run: a new public function,
+    method of an entry-point class or non-field class without a row in `apiRows` breaks it -/
+theorem api_covered : apiCovered Generated.publicApi = true := by
+  decide +kernel
+
+/-- every row that claims coverage is backed by an executable probe / operation stream of the suite -/
+theorem api_rows_probed : apiRowsProbed Generated.apiProbed = true := by
+  decide +kernel
+
+/-- the operations the entry points map to have rows in today's table and none of them edits an argument -/
+theorem api_ops_in_table : apiOpsInTable Generated.aliasing = true := by
+  decide +kernel
+
+/-- non-vacuity: the coverage predicate rejects an API with one more public function -/
+theorem api_covered_example :
+    apiCovered (("brand_new_public_function", "function") :: Generated.publicApi) = false ∧
+    apiCovered [("serialize", "function"), ("Array", "field")] = true := by
   decide +kernel
 
 end Typedpy.C19
